@@ -167,6 +167,35 @@ func runLimit(c *core.Ctx) []core.Obligation {
 		default:
 			b.addP(props, core.Discharged, key, pos, "admits depths "+admits+" ("+when+"-increment operand, "+op.String()+")")
 		}
+		// the container is counted on every path that accepts it: each success return of the
+		// function (outside its null arm) is dominated by the comparison
+		dkey := strings.Replace(key, "limit:cmp:", "limit:counted:", 1)
+		badRet := ""
+		for _, blk := range s.fn.Blocks {
+			ret, ok := blk.Instrs[len(blk.Instrs)-1].(*ssa.Return)
+			if !ok || len(ret.Results) == 0 || !isNilConst(ret.Results[len(ret.Results)-1]) {
+				continue
+			}
+			if s.bo.Block() == blk || s.bo.Block().Dominates(blk) {
+				continue
+			}
+			nullArm := false
+			for _, e := range dominatingEdges(blk) {
+				if call, isCall := e.ifi.Cond.(*ssa.Call); isCall && e.succ == 0 {
+					if f := staticCallee(call.Common()); f != nil && f.Name() == "hasNullPrefix" {
+						nullArm = true
+					}
+				}
+			}
+			if !nullArm {
+				badRet = c.InstrPos(ret)
+			}
+		}
+		if badRet != "" {
+			b.addP(props, core.Violation, dkey, badRet, name+" returns success on a path that does not count the container it consumed against the nesting limit: a document one level deeper than encoding/json accepts passes through this path")
+		} else {
+			b.addP(props, core.Discharged, dkey, pos, "every success return outside the null arm is dominated by the limit test")
+		}
 	}
 	return b.out
 }
